@@ -31,6 +31,7 @@ typedef unsigned __int128 u128;
 
 const char* const KEY_INF = "C03:doubles-opposite-infinities";
 const char* const KEY_RENDER = "C03:equal-renderings-overread";
+const char* const KEY_CBOOL = "C03:c-condition-truncated-to-int";
 #define TXT "verif text"
 
 // ------------------------------------------------------------------ kinds
@@ -124,6 +125,34 @@ template <class F> inline void with_mix(int t, i128 v, F&& f) {
     }
 }
 
+// operand types of the value under test of the bits checks, and the types the other two operands may have instead of it
+const int BITS_ACTUAL[9] = {T_UINT, T_UCHAR, T_USHORT, T_ULONG, T_SCHAR, T_SHORT, T_INT, T_LONG, T_ULLONG};
+const int WIDE[5] = {-1 /* the type of the value under test */, T_ULONG, T_LONG, T_INT, T_UINT};
+template <class F> inline void with_bits_actual(int t, i128 v, F&& f) {
+    switch (t) {
+    default:
+    case T_UINT: f(from128<unsigned int>(v)); break;
+    case T_UCHAR: f(from128<unsigned char>(v)); break;
+    case T_USHORT: f(from128<unsigned short>(v)); break;
+    case T_ULONG: f(from128<unsigned long>(v)); break;
+    case T_SCHAR: f(from128<signed char>(v)); break;
+    case T_SHORT: f(from128<short>(v)); break;
+    case T_INT: f(from128<int>(v)); break;
+    case T_LONG: f(from128<long>(v)); break;
+    case T_ULLONG: f(from128<unsigned long long>(v)); break;
+    }
+}
+template <class T, class F> inline void with_wide(int mode, i128 v, F&& f) {
+    switch (mode) {
+    default:
+    case 0: f(from128<T>(v)); break;
+    case 1: f(from128<unsigned long>(v)); break;
+    case 2: f(from128<long>(v)); break;
+    case 3: f(from128<int>(v)); break;
+    case 4: f(from128<unsigned int>(v)); break;
+    }
+}
+
 enum E32 : int { E32_ZERO = 0 };
 enum class ELL : long long { ZERO = 0 };
 enum E8 : unsigned char { E8_ZERO = 0 };
@@ -187,7 +216,9 @@ struct Case {
     int ta = 0, tb = 0; i128 va = 0, vb = 0, vm = 0;        // integer operands (value already in range of its type)
     double da = 0, db = 0, dt = 0;
     bool a_null = false, b_null = false, alias = false; std::string sa, sb; size_t n = 0;
-    int sub = 0, op = 0, ia = 0, ib = 0;
+    int sub = 0, op = 0, ia = 0, ib = 0, tm = 0;
+    bool wide_src = false;    // C interface: operands of a type other than the parameter type (converted by the call)
+    bool c_trunc = false;     // the int parameter of CHECK_C / CHECK_EQUAL_C_BOOL loses the truth value (KEY_CBOOL)
     // materialised operands (built outside the test body: a failing check leaves the body by throw or longjmp)
     char *pa = nullptr, *pb = nullptr;
     SimpleString *ssa = nullptr, *ssb = nullptr;
@@ -365,11 +396,17 @@ int derive_index(Reader& r, int a, int n) { return r.below(2) == 0 ? a : (int)r.
 
 // ------------------------------------------------------------------ decoding + oracle
 void decode_bool_family(Reader& r, Case& c) {
-    static const int ct[] = {T_INT, T_BOOL, T_CHAR, T_SCHAR, T_UCHAR, T_SHORT, T_USHORT};
+    static const int ct[] = {T_INT, T_BOOL, T_CHAR, T_SCHAR, T_UCHAR, T_SHORT, T_USHORT, T_UINT, T_LONG, T_ULONG, T_LLONG, T_ULLONG};
     if (c.kind == K_CHECK_C) c.ta = r.pick(ct); else c.ta = (int)r.below(T_COUNT);
     c.text = r.flag();
-    c.va = r.below(3) == 0 ? 0 : gen_int(r, c.ta);
+    switch (r.below(4)) {
+    default:
+    case 0: c.va = 0; break;
+    case 1: case 2: c.va = gen_int(r, c.ta); break;
+    case 3: c.va = wrap(((i128)(1 + r.below(255))) << (8 * r.below(8)), c.ta); break;   // one non-zero byte at any position
+    }
     bool truth = c.va != 0;
+    c.c_trunc = c.kind == K_CHECK_C && truth && wrapb(c.va, 32, true) == 0;
     c.expect = (c.kind == K_CHECK_FALSE) ? !truth : truth;
     c.nontrivial = !c.expect || (c.va != 1 && c.va != 0);
 }
@@ -379,8 +416,8 @@ void decode_equal_same(Reader& r, Case& c, int t) {     // both operands of type
     c.expect = c.va == c.vb;
     c.nontrivial = !c.expect;
 }
-void decode_mixed(Reader& r, Case& c, int bits, bool sg, bool low_byte) {   // operands of possibly different types, compared after the named conversion
-    c.ta = r.pick(MIX); c.tb = r.below(2) == 0 ? c.ta : r.pick(MIX);
+void decode_mixed(Reader& r, Case& c, int bits, bool sg, bool low_byte, bool same_type = false) {   // operands of possibly different types, compared after the named conversion
+    c.ta = r.pick(MIX); c.tb = (same_type || r.below(2) == 0) ? c.ta : r.pick(MIX);
     c.text = r.flag();
     c.va = gen_int(r, c.ta);
     i128 wide;
@@ -399,6 +436,11 @@ void decode_mixed(Reader& r, Case& c, int bits, bool sg, bool low_byte) {   // o
     i128 ca = low_byte ? (i128)((u128)c.vb & 0xff) : wrapb(c.vb, bits, sg);
     c.expect = ce == ca;
     c.nontrivial = !c.expect || c.va != c.vb;
+}
+// CHECK_EQUAL_C_<T>: operands of the parameter type, or (wide_src) of another type that the call converts to it
+void decode_c_int(Reader& r, Case& c, int named) {
+    if (r.below(3) == 2) { c.wide_src = true; decode_mixed(r, c, TI[named].bits, TI[named].sg, false, true); }
+    else { c.text = r.flag(); decode_equal_same(r, c, named); }
 }
 void materialise_strings(Case& c) {
     c.pa = c.a_null ? nullptr : dup_exact(c.sa);
@@ -499,41 +541,73 @@ void decode_memory(Reader& r, Case& c) {       // sa = expected block, sb = actu
     else if (c.alias) c.pb = c.pa;
     else { c.pb = (char*)malloc(c.n); if (c.n) memcpy(c.pb, c.sb.data(), c.n); }
 }
+// BITS_EQUAL(expected, actual, mask) hands all three operands, each converted on its own to unsigned long, plus
+// sizeof(actual) to assertBitsEqual; CHECK_EQUAL_C_BITS does the same with unsigned int.  The predicate named is
+// (expected & mask) == (actual & mask) on the converted operands; the byte count only drives the printing.
+// expected and mask are therefore drawn over the whole 64-bit lattice, whatever the width of `actual`.
 void decode_bits(Reader& r, Case& c) {
-    static const int bt[] = {T_UINT, T_UCHAR, T_USHORT, T_ULONG, T_SCHAR, T_SHORT, T_INT, T_LONG, T_ULLONG};
-    static const int ct[] = {T_UINT, T_UCHAR, T_USHORT};
-    c.ta = c.tb = (c.kind == K_C_BITS) ? r.pick(ct) : r.pick(bt);
+    bool cvar = c.kind == K_C_BITS;
+    int nbits = cvar ? 32 : 64;                       // width of the parameter type
+    c.tb = r.pick(BITS_ACTUAL);
     c.text = r.flag();
-    int bits = TI[c.ta].bits;
-    u128 all = (((u128)1) << bits) - 1;
-    c.va = gen_int(r, c.ta);
-    u128 m;
-    switch (r.below(8)) {
+    c.ia = (int)r.below(5); c.ib = (int)r.below(5);   // type of expected / of mask: 0 = the type of actual
+    c.ta = c.ia ? WIDE[c.ia] : c.tb;
+    c.tm = c.ib ? WIDE[c.ib] : c.tb;
+    c.sub = (int)r.below(3);                          // 2: direct call with an explicit byte count
+    if (c.sub == 2) { static const size_t bc[] = {1, 2, 3, 4, 5, 8, 9, 16}; c.n = r.pick(bc); }
+    else c.n = (size_t)TI[c.tb].bits / 8;
+    int abits = TI[c.tb].bits;
+    c.vb = gen_int(r, c.tb);
+    uint64_t A = (uint64_t)(u128)c.vb;               // two's complement: a negative narrow value sign-extends
+    uint64_t low = abits == 64 ? ~0ULL : ((1ULL << abits) - 1);
+    uint64_t M;
+    switch (r.below(14)) {
     default:
-    case 0: m = all; break;
-    case 1: m = 0; break;
-    case 2: m = 1; break;
-    case 3: m = ((u128)1) << (bits - 1); break;
-    case 4: m = (u128)0x0f0f0f0f0f0f0f0fULL & all; break;
-    case 5: m = (u128)0xf0f0f0f0f0f0f0f0ULL & all; break;
-    case 6: m = (u128)r.u64() & all; break;
-    case 7: m = 0xff & all; break;
+    case 0: M = low; break;
+    case 1: M = ~0ULL; break;
+    case 2: M = 0; break;
+    case 3: M = 1ULL << (abits % 64); break;          // the first bit above the value under test
+    case 4: M = (low << 8) | 0xff; break;             // one byte more than the value under test has
+    case 5: M = ~low ? ~low : ~0ULL; break;           // only bits above the value under test
+    case 6: M = 0x0f0f0f0f0f0f0f0fULL; break;
+    case 7: M = 0xf0f0f0f0f0f0f0f0ULL; break;
+    case 8: M = r.u64(); break;
+    case 9: M = 0xff; break;
+    case 10: M = 1ULL << 63; break;
+    case 11: M = 1ULL << (abits - 1); break;          // sign bit of the value under test
+    case 12: M = 0xffffffffULL; break;
+    case 13: M = 1; break;
     }
-    u128 ua = (u128)c.va & all, ub;
-    switch (r.below(8)) {
+    auto pick_bit = [&](uint64_t set, uint64_t fallback) -> uint64_t {
+        if (!set) return fallback;
+        int k = (int)r.below(64);
+        while (!((set >> k) & 1)) k = (k + 1) % 64;
+        return 1ULL << k;
+    };
+    uint64_t E;
+    switch (r.below(14)) {
     default:
-    case 0: case 1: ub = ua; break;
-    case 2: { u128 in = m; if (!in) { ub = ua; break; } int k = (int)r.below((uint32_t)bits); while (!((in >> k) & 1)) k = (k + 1) % bits; ub = ua ^ (((u128)1) << k); } break;   // visible difference
-    case 3: { u128 out = ~m & all; if (!out) { ub = ua; break; } int k = (int)r.below((uint32_t)bits); while (!((out >> k) & 1)) k = (k + 1) % bits; ub = ua ^ (((u128)1) << k); } break;   // hidden difference
-    case 4: ub = ua ^ (~m & all); break;           // every hidden bit differs
-    case 5: ub = (u128)gen_int(r, c.ta) & all; break;
-    case 6: ub = ua ^ m; break;                    // every visible bit differs
-    case 7: ub = ~ua & all; break;
+    case 0: case 1: E = A; break;
+    case 2: E = A & low; break;                       // the raw bits of actual, zero-extended
+    case 3: E = A ^ pick_bit(M, 0); break;            // one visible bit differs
+    case 4: E = A ^ pick_bit(~M, 0); break;           // one hidden bit differs
+    case 5: E = A ^ pick_bit(M & ~low, 1ULL << (abits % 64)); break;   // one visible bit above the width of actual differs
+    case 6: E = A ^ (M & ~low); break;                // every visible bit above the width of actual differs
+    case 7: E = A ^ ~M; break;                        // every hidden bit differs
+    case 8: E = (uint64_t)(u128)gen_int(r, T_ULONG); break;
+    case 9: E = A ^ M; break;
+    case 10: E = A + (1ULL << (abits % 64)); break;
+    case 11: E = A ^ (1ULL << r.below(64)); break;
+    case 12: E = A ^ pick_bit(M & low, 0); break;     // one visible bit inside the width of actual differs
+    case 13: E = ~A; break;
     }
-    c.vb = wrap((i128)ub, c.ta);
-    c.vm = wrap((i128)m, c.ta);
-    c.expect = (ua & m) == (ub & m);
-    c.nontrivial = !c.expect || ua != ub;
+    c.va = wrap((i128)E, c.ta);
+    c.vm = wrap((i128)M, c.tm);
+    uint64_t pm = nbits == 64 ? ~0ULL : 0xffffffffULL;
+    uint64_t e = (uint64_t)(u128)c.va & pm, a = (uint64_t)(u128)c.vb & pm, m = (uint64_t)(u128)c.vm & pm;   // after the conversion to the parameter type
+    c.expect = (e & m) == (a & m);
+    c.nontrivial = !c.expect || e != a;
+    c.op = (abits < nbits && ((m & pm) >> abits) != 0) ? 1 : 0;   // class: the mask reaches above the width of actual
 }
 bool relop_int(int op, i128 x, i128 y) {
     switch (op) { default: case 0: return x == y; case 1: return x != y; case 2: return x < y; case 3: return x <= y; case 4: return x > y; case 5: return x >= y; }
@@ -597,8 +671,18 @@ void decode(Reader& r, Case& c) {
         c.hazard = c.ta == T_CHAR && c.vb == '0';      // StringFrom(0) and StringFrom('0') are both "0"
         break;
     case K_ENUMS_EQUAL:
-        c.text = r.flag(); c.sub = (int)r.below(3);
+        c.text = r.flag(); c.sub = (int)r.below(5);
         if (c.sub == 0) { decode_equal_same(r, c, T_INT); }
+        else if (c.sub == 3) {      // ENUMS_EQUAL_TYPE(unsigned char, ...) on an enum with an int underlying type: names the conversion to unsigned char
+            c.ta = c.tb = T_INT; c.va = gen_int(r, T_INT);
+            switch (r.below(4)) { default: case 0: c.vb = c.va; break; case 1: c.vb = wrap(c.va + 256, T_INT); break; case 2: c.vb = derive_int(r, T_INT, c.va); break; case 3: c.vb = wrap(c.va ^ (((i128)1) << (8 + r.below(24))), T_INT); break; }
+            c.expect = wrapb(c.va, 8, false) == wrapb(c.vb, 8, false); c.nontrivial = !c.expect || c.va != c.vb;
+        }
+        else if (c.sub == 4) {      // ENUMS_EQUAL_INT on enums of different underlying types (int, long long)
+            c.ta = T_INT; c.tb = T_LLONG; c.va = gen_int(r, T_INT);
+            switch (r.below(4)) { default: case 0: c.vb = c.va; break; case 1: c.vb = wrap(c.va + P32, T_LLONG); break; case 2: c.vb = gen_int(r, T_LLONG); break; case 3: c.vb = wrap((i128)(uint32_t)(int32_t)(long long)c.va, T_LLONG); break; }
+            c.expect = c.va == wrapb(c.vb, 32, true); c.nontrivial = !c.expect || c.va != c.vb;
+        }
         else if (c.sub == 1) {      // enum with a long long underlying type: ENUMS_EQUAL_INT names the conversion to int
             c.ta = c.tb = T_LLONG; c.va = gen_int(r, T_LLONG);
             switch (r.below(4)) { default: case 0: c.vb = c.va; break; case 1: c.vb = wrap(c.va + P32, T_LLONG); break; case 2: c.vb = derive_int(r, T_LLONG, c.va); break; case 3: c.vb = wrap(c.va ^ (((i128)1) << (32 + r.below(32))), T_LLONG); break; }
@@ -631,18 +715,32 @@ void decode(Reader& r, Case& c) {
 #endif
         break;
     case K_C_BOOL:
-        c.text = r.flag(); c.ta = c.tb = T_INT; c.va = r.below(3) == 0 ? 0 : gen_int(r, T_INT);
-        switch (r.below(4)) { default: case 0: c.vb = c.va; break; case 1: c.vb = c.va ? 0 : 1; break; case 2: c.vb = gen_int(r, T_INT); break; case 3: c.vb = c.va ? wrap(c.va * 2 + 1, T_INT) : 0; break; }
-        c.expect = (c.va != 0) == (c.vb != 0); c.nontrivial = !c.expect || c.va != c.vb; break;
-    case K_C_INT: c.text = r.flag(); decode_equal_same(r, c, T_INT); break;
-    case K_C_UINT: c.text = r.flag(); decode_equal_same(r, c, T_UINT); break;
-    case K_C_LONG: c.text = r.flag(); decode_equal_same(r, c, T_LONG); break;
-    case K_C_ULONG: c.text = r.flag(); decode_equal_same(r, c, T_ULONG); break;
-    case K_C_LONGLONG: c.text = r.flag(); decode_equal_same(r, c, T_LLONG); break;
-    case K_C_ULONGLONG: c.text = r.flag(); decode_equal_same(r, c, T_ULLONG); break;
-    case K_C_CHAR: c.text = r.flag(); decode_equal_same(r, c, T_CHAR); break;
-    case K_C_UBYTE: c.text = r.flag(); decode_equal_same(r, c, T_UCHAR); break;
-    case K_C_SBYTE: c.text = r.flag(); decode_equal_same(r, c, T_SCHAR); break;
+        c.text = r.flag();
+        if (r.below(3) == 2) { static const int wt[] = {T_LONG, T_UINT, T_ULLONG}; c.wide_src = true; c.ta = c.tb = r.pick(wt); }
+        else c.ta = c.tb = T_INT;
+        c.va = r.below(3) == 0 ? 0 : gen_int(r, c.ta);
+        switch (r.below(6)) {
+        default:
+        case 0: c.vb = c.va; break;
+        case 1: c.vb = c.va ? 0 : 1; break;
+        case 2: c.vb = gen_int(r, c.ta); break;
+        case 3: c.vb = c.va ? wrap(c.va * 2 + 1, c.ta) : 0; break;
+        case 4: c.vb = wrap(((i128)(1 + r.below(255))) << (8 * r.below(8)), c.ta); break;
+        case 5: c.vb = wrap(c.va * P32, c.ta); break;
+        }
+        c.expect = (c.va != 0) == (c.vb != 0); c.nontrivial = !c.expect || c.va != c.vb;
+        // the truth values as seen through the int parameters
+        c.c_trunc = ((wrapb(c.va, 32, true) != 0) == (wrapb(c.vb, 32, true) != 0)) != (c.expect == 1);
+        break;
+    case K_C_INT: decode_c_int(r, c, T_INT); break;
+    case K_C_UINT: decode_c_int(r, c, T_UINT); break;
+    case K_C_LONG: decode_c_int(r, c, T_LONG); break;
+    case K_C_ULONG: decode_c_int(r, c, T_ULONG); break;
+    case K_C_LONGLONG: decode_c_int(r, c, T_LLONG); break;
+    case K_C_ULONGLONG: decode_c_int(r, c, T_ULLONG); break;
+    case K_C_CHAR: decode_c_int(r, c, T_CHAR); break;
+    case K_C_UBYTE: decode_c_int(r, c, T_UCHAR); break;
+    case K_C_SBYTE: decode_c_int(r, c, T_SCHAR); break;
     default: break;
     }
 }
@@ -697,6 +795,8 @@ void body(void* p) {
     case K_ENUMS_EQUAL:
         if (c.sub == 0) { E32 e = (E32)from128<int>(c.va), a = (E32)from128<int>(c.vb); if (c.text) ENUMS_EQUAL_INT_TEXT(e, a, TXT); else ENUMS_EQUAL_INT(e, a); }
         else if (c.sub == 1) { ELL e = (ELL)from128<long long>(c.va), a = (ELL)from128<long long>(c.vb); if (c.text) ENUMS_EQUAL_INT_TEXT(e, a, TXT); else ENUMS_EQUAL_INT(e, a); }
+        else if (c.sub == 3) { E32 e = (E32)from128<int>(c.va), a = (E32)from128<int>(c.vb); if (c.text) ENUMS_EQUAL_TYPE_TEXT(unsigned char, e, a, TXT); else ENUMS_EQUAL_TYPE(unsigned char, e, a); }
+        else if (c.sub == 4) { E32 e = (E32)from128<int>(c.va); ELL a = (ELL)from128<long long>(c.vb); if (c.text) ENUMS_EQUAL_INT_TEXT(e, a, TXT); else ENUMS_EQUAL_INT(e, a); }
         else { E8 e = (E8)from128<unsigned char>(c.va), a = (E8)from128<unsigned char>(c.vb); if (c.text) ENUMS_EQUAL_TYPE_TEXT(unsigned char, e, a, TXT); else ENUMS_EQUAL_TYPE(unsigned char, e, a); }
         break;
     case K_LONGS_EQUAL: MIXED(LONGS_EQUAL); break;
@@ -715,7 +815,12 @@ void body(void* p) {
     case K_STRCMP_NOCASE_CONTAINS: if (c.text) STRCMP_NOCASE_CONTAINS_TEXT(c.pa, c.pb, TXT); else STRCMP_NOCASE_CONTAINS(c.pa, c.pb); break;
     case K_MEMCMP_EQUAL: if (c.text) MEMCMP_EQUAL_TEXT(c.pa, c.pb, c.n, TXT); else MEMCMP_EQUAL(c.pa, c.pb, c.n); break;
     case K_BITS_EQUAL:
-        with_type(c.ta, c.va, [&](auto e) { typedef decltype(e) T; T a = from128<T>(c.vb), m = from128<T>(c.vm); if (c.text) BITS_EQUAL_TEXT(e, a, m, TXT); else BITS_EQUAL(e, a, m); });
+        with_bits_actual(c.tb, c.vb, [&](auto a) { typedef decltype(a) T;
+            with_wide<T>(c.ia, c.va, [&](auto e) { with_wide<T>(c.ib, c.vm, [&](auto m) {
+                if (c.sub == 2) UtestShell::getCurrent()->assertBitsEqual(e, a, m, c.n, c.text ? TXT : NULLPTR, __FILE__, __LINE__);
+                else if (c.text) BITS_EQUAL_TEXT(e, a, m, TXT);
+                else BITS_EQUAL(e, a, m);
+            }); }); });
         break;
     case K_CHECK_COMPARE:
         if (c.ta == T_COUNT) do_compare<double>(c.op, c.da, c.db, c.text);
@@ -728,22 +833,47 @@ void body(void* p) {
         else CHECK_THROWS(std::runtime_error, thrower(c.op));
 #endif
         break;
-    case K_C_BOOL: { int e = from128<int>(c.va), a = from128<int>(c.vb); if (c.text) CHECK_EQUAL_C_BOOL_TEXT(e, a, TXT); else CHECK_EQUAL_C_BOOL(e, a); } break;
-    case K_C_INT: { int e = from128<int>(c.va), a = from128<int>(c.vb); if (c.text) CHECK_EQUAL_C_INT_TEXT(e, a, TXT); else CHECK_EQUAL_C_INT(e, a); } break;
-    case K_C_UINT: { unsigned e = from128<unsigned>(c.va), a = from128<unsigned>(c.vb); if (c.text) CHECK_EQUAL_C_UINT_TEXT(e, a, TXT); else CHECK_EQUAL_C_UINT(e, a); } break;
-    case K_C_LONG: { long e = from128<long>(c.va), a = from128<long>(c.vb); if (c.text) CHECK_EQUAL_C_LONG_TEXT(e, a, TXT); else CHECK_EQUAL_C_LONG(e, a); } break;
-    case K_C_ULONG: { unsigned long e = from128<unsigned long>(c.va), a = from128<unsigned long>(c.vb); if (c.text) CHECK_EQUAL_C_ULONG_TEXT(e, a, TXT); else CHECK_EQUAL_C_ULONG(e, a); } break;
-    case K_C_LONGLONG: { long long e = from128<long long>(c.va), a = from128<long long>(c.vb); if (c.text) CHECK_EQUAL_C_LONGLONG_TEXT(e, a, TXT); else CHECK_EQUAL_C_LONGLONG(e, a); } break;
-    case K_C_ULONGLONG: { unsigned long long e = from128<unsigned long long>(c.va), a = from128<unsigned long long>(c.vb); if (c.text) CHECK_EQUAL_C_ULONGLONG_TEXT(e, a, TXT); else CHECK_EQUAL_C_ULONGLONG(e, a); } break;
+    case K_C_BOOL:
+        if (c.wide_src) with_type(c.ta, c.va, [&](auto e) { decltype(e) a = from128<decltype(e)>(c.vb); if (c.text) CHECK_EQUAL_C_BOOL_TEXT(e, a, TXT); else CHECK_EQUAL_C_BOOL(e, a); });
+        else { int e = from128<int>(c.va), a = from128<int>(c.vb); if (c.text) CHECK_EQUAL_C_BOOL_TEXT(e, a, TXT); else CHECK_EQUAL_C_BOOL(e, a); } break;
+    case K_C_INT:
+        if (c.wide_src) with_type(c.ta, c.va, [&](auto e) { decltype(e) a = from128<decltype(e)>(c.vb); if (c.text) CHECK_EQUAL_C_INT_TEXT(e, a, TXT); else CHECK_EQUAL_C_INT(e, a); });
+        else { int e = from128<int>(c.va), a = from128<int>(c.vb); if (c.text) CHECK_EQUAL_C_INT_TEXT(e, a, TXT); else CHECK_EQUAL_C_INT(e, a); } break;
+    case K_C_UINT:
+        if (c.wide_src) with_type(c.ta, c.va, [&](auto e) { decltype(e) a = from128<decltype(e)>(c.vb); if (c.text) CHECK_EQUAL_C_UINT_TEXT(e, a, TXT); else CHECK_EQUAL_C_UINT(e, a); });
+        else { unsigned e = from128<unsigned>(c.va), a = from128<unsigned>(c.vb); if (c.text) CHECK_EQUAL_C_UINT_TEXT(e, a, TXT); else CHECK_EQUAL_C_UINT(e, a); } break;
+    case K_C_LONG:
+        if (c.wide_src) with_type(c.ta, c.va, [&](auto e) { decltype(e) a = from128<decltype(e)>(c.vb); if (c.text) CHECK_EQUAL_C_LONG_TEXT(e, a, TXT); else CHECK_EQUAL_C_LONG(e, a); });
+        else { long e = from128<long>(c.va), a = from128<long>(c.vb); if (c.text) CHECK_EQUAL_C_LONG_TEXT(e, a, TXT); else CHECK_EQUAL_C_LONG(e, a); } break;
+    case K_C_ULONG:
+        if (c.wide_src) with_type(c.ta, c.va, [&](auto e) { decltype(e) a = from128<decltype(e)>(c.vb); if (c.text) CHECK_EQUAL_C_ULONG_TEXT(e, a, TXT); else CHECK_EQUAL_C_ULONG(e, a); });
+        else { unsigned long e = from128<unsigned long>(c.va), a = from128<unsigned long>(c.vb); if (c.text) CHECK_EQUAL_C_ULONG_TEXT(e, a, TXT); else CHECK_EQUAL_C_ULONG(e, a); } break;
+    case K_C_LONGLONG:
+        if (c.wide_src) with_type(c.ta, c.va, [&](auto e) { decltype(e) a = from128<decltype(e)>(c.vb); if (c.text) CHECK_EQUAL_C_LONGLONG_TEXT(e, a, TXT); else CHECK_EQUAL_C_LONGLONG(e, a); });
+        else { long long e = from128<long long>(c.va), a = from128<long long>(c.vb); if (c.text) CHECK_EQUAL_C_LONGLONG_TEXT(e, a, TXT); else CHECK_EQUAL_C_LONGLONG(e, a); } break;
+    case K_C_ULONGLONG:
+        if (c.wide_src) with_type(c.ta, c.va, [&](auto e) { decltype(e) a = from128<decltype(e)>(c.vb); if (c.text) CHECK_EQUAL_C_ULONGLONG_TEXT(e, a, TXT); else CHECK_EQUAL_C_ULONGLONG(e, a); });
+        else { unsigned long long e = from128<unsigned long long>(c.va), a = from128<unsigned long long>(c.vb); if (c.text) CHECK_EQUAL_C_ULONGLONG_TEXT(e, a, TXT); else CHECK_EQUAL_C_ULONGLONG(e, a); } break;
     case K_C_REAL: if (c.text) CHECK_EQUAL_C_REAL_TEXT(c.da, c.db, c.dt, TXT); else CHECK_EQUAL_C_REAL(c.da, c.db, c.dt); break;
-    case K_C_CHAR: { char e = from128<char>(c.va), a = from128<char>(c.vb); if (c.text) CHECK_EQUAL_C_CHAR_TEXT(e, a, TXT); else CHECK_EQUAL_C_CHAR(e, a); } break;
-    case K_C_UBYTE: { unsigned char e = from128<unsigned char>(c.va), a = from128<unsigned char>(c.vb); if (c.text) CHECK_EQUAL_C_UBYTE_TEXT(e, a, TXT); else CHECK_EQUAL_C_UBYTE(e, a); } break;
-    case K_C_SBYTE: { signed char e = from128<signed char>(c.va), a = from128<signed char>(c.vb); if (c.text) CHECK_EQUAL_C_SBYTE_TEXT(e, a, TXT); else CHECK_EQUAL_C_SBYTE(e, a); } break;
+    case K_C_CHAR:
+        if (c.wide_src) with_type(c.ta, c.va, [&](auto e) { decltype(e) a = from128<decltype(e)>(c.vb); if (c.text) CHECK_EQUAL_C_CHAR_TEXT(e, a, TXT); else CHECK_EQUAL_C_CHAR(e, a); });
+        else { char e = from128<char>(c.va), a = from128<char>(c.vb); if (c.text) CHECK_EQUAL_C_CHAR_TEXT(e, a, TXT); else CHECK_EQUAL_C_CHAR(e, a); } break;
+    case K_C_UBYTE:
+        if (c.wide_src) with_type(c.ta, c.va, [&](auto e) { decltype(e) a = from128<decltype(e)>(c.vb); if (c.text) CHECK_EQUAL_C_UBYTE_TEXT(e, a, TXT); else CHECK_EQUAL_C_UBYTE(e, a); });
+        else { unsigned char e = from128<unsigned char>(c.va), a = from128<unsigned char>(c.vb); if (c.text) CHECK_EQUAL_C_UBYTE_TEXT(e, a, TXT); else CHECK_EQUAL_C_UBYTE(e, a); } break;
+    case K_C_SBYTE:
+        if (c.wide_src) with_type(c.ta, c.va, [&](auto e) { decltype(e) a = from128<decltype(e)>(c.vb); if (c.text) CHECK_EQUAL_C_SBYTE_TEXT(e, a, TXT); else CHECK_EQUAL_C_SBYTE(e, a); });
+        else { signed char e = from128<signed char>(c.va), a = from128<signed char>(c.vb); if (c.text) CHECK_EQUAL_C_SBYTE_TEXT(e, a, TXT); else CHECK_EQUAL_C_SBYTE(e, a); } break;
     case K_C_STRING: if (c.text) CHECK_EQUAL_C_STRING_TEXT(c.pa, c.pb, TXT); else CHECK_EQUAL_C_STRING(c.pa, c.pb); break;
     case K_C_POINTER: { const void* e = obj_ptr(c.ia); const void* a = obj_ptr(c.ib); if (c.text) CHECK_EQUAL_C_POINTER_TEXT(e, a, TXT); else CHECK_EQUAL_C_POINTER(e, a); } break;
     case K_C_MEMCMP: if (c.text) CHECK_EQUAL_C_MEMCMP_TEXT(c.pa, c.pb, c.n, TXT); else CHECK_EQUAL_C_MEMCMP(c.pa, c.pb, c.n); break;
     case K_C_BITS:
-        with_type(c.ta, c.va, [&](auto e) { typedef decltype(e) T; T a = from128<T>(c.vb), m = from128<T>(c.vm); if (c.text) CHECK_EQUAL_C_BITS_TEXT(e, a, m, TXT); else CHECK_EQUAL_C_BITS(e, a, m); });
+        with_bits_actual(c.tb, c.vb, [&](auto a) { typedef decltype(a) T;
+            with_wide<T>(c.ia, c.va, [&](auto e) { with_wide<T>(c.ib, c.vm, [&](auto m) {
+                if (c.sub == 2) CHECK_EQUAL_C_BITS_LOCATION(e, a, m, c.n, c.text ? TXT : NULL, __FILE__, __LINE__);
+                else if (c.text) CHECK_EQUAL_C_BITS_TEXT(e, a, m, TXT);
+                else CHECK_EQUAL_C_BITS(e, a, m);
+            }); }); });
         break;
     default: break;
     }
@@ -765,7 +895,7 @@ std::string describe(const Case& c) {
     case K_FAIL: case K_FAIL_TEST: case K_FAIL_TEXT_C: return k + "(\"" + verif::printable(fail_text(c.sub)) + "\")";
     case K_FAIL_C: return k + "()";
     case K_CHECK_EQUAL_ZERO: return k + "(" + iv(c.tb, c.vb) + ")";
-    case K_ENUMS_EQUAL: return k + sfmt("[%s]", c.sub == 0 ? "INT, enum:int" : c.sub == 1 ? "INT, enum:long long" : "TYPE unsigned char") + "(" + iv(c.ta, c.va) + ", " + iv(c.tb, c.vb) + ")";
+    case K_ENUMS_EQUAL: return k + sfmt("[%s]", c.sub == 0 ? "INT, enum:int" : c.sub == 1 ? "INT, enum:long long" : c.sub == 3 ? "TYPE unsigned char, enum:int" : c.sub == 4 ? "INT, enum:int vs enum:long long" : "TYPE unsigned char") + "(" + iv(c.ta, c.va) + ", " + iv(c.tb, c.vb) + ")";
     case K_CHECK_EQUAL_DOUBLE: return k + "(" + show_double(c.da) + ", " + show_double(c.db) + ")";
     case K_CHECK_EQUAL_STRING: return k + "(" + sp(false, c.sa) + ", " + sp(false, c.sb) + ")";
     case K_POINTERS_EQUAL: case K_C_POINTER: return k + sfmt("(ptr#%d, ptr#%d)", c.ia, c.ib);
@@ -775,7 +905,7 @@ std::string describe(const Case& c) {
     case K_STRCMP_EQUAL: case K_STRCMP_NOCASE_EQUAL: case K_C_STRING: case K_STRCMP_CONTAINS: case K_STRCMP_NOCASE_CONTAINS:
         return k + "(" + sp(c.a_null, c.sa) + ", " + sp(c.b_null, c.sb) + ")";
     case K_MEMCMP_EQUAL: case K_C_MEMCMP: return k + "(" + hexblock(c.a_null, c.sa) + ", " + (c.alias ? std::string("<same pointer>") : hexblock(c.b_null, c.sb)) + sfmt(", %zu)", c.n);
-    case K_BITS_EQUAL: case K_C_BITS: return k + "(" + iv(c.ta, c.va) + ", " + iv(c.tb, c.vb) + ", mask " + iv(c.ta, c.vm) + ")";
+    case K_BITS_EQUAL: case K_C_BITS: return k + (c.sub == 2 ? "[direct call]" : "") + "(" + iv(c.ta, c.va) + ", " + iv(c.tb, c.vb) + ", mask " + iv(c.tm, c.vm) + sfmt(", byteCount %zu)", c.n);
     case K_CHECK_COMPARE:
         if (c.ta == T_COUNT) return k + "(" + show_double(c.da) + " " + OPNAME[c.op] + " " + show_double(c.db) + ")";
         return k + "(" + iv(c.ta, c.va) + " " + OPNAME[c.op] + " " + iv(c.tb, c.vb) + ")";
@@ -802,6 +932,7 @@ int judge(Case& c, const char** out_sig, std::string* out_msg) {
     verif::FixtureRun fr = verif::run_in_fixture(body, &c);
     bool judged_verdict = c.expect >= 0;
     if (c.opp_inf && verif::known(KEY_INF)) judged_verdict = false;   // the one known-wrong answer is accepted
+    if (c.c_trunc && verif::known(KEY_CBOOL)) judged_verdict = false;
     if (fr.failures > 1) {
         g_sig = sfmt("C03:%s:more-than-one-failure", KIND_NAME[c.kind]);
         *out_sig = g_sig.c_str(); *out_msg = sfmt("%s recorded %zu failures", describe(c).c_str(), fr.failures);
@@ -810,6 +941,7 @@ int judge(Case& c, const char** out_sig, std::string* out_msg) {
     bool passed = fr.failures == 0;
     if (judged_verdict && passed != (c.expect == 1)) {
         if (c.opp_inf) g_sig = KEY_INF;
+        else if (c.c_trunc) g_sig = KEY_CBOOL;
         else g_sig = sfmt("C03:%s:%s", KIND_NAME[c.kind], passed ? "passes-on-false-predicate" : "fails-on-true-predicate");
         *out_sig = g_sig.c_str();
         *out_msg = sfmt("%s: the predicate is %s but the check recorded %zu failure(s)", describe(c).c_str(), c.expect ? "true" : "false", fr.failures);
@@ -865,7 +997,14 @@ extern "C" int verif_case(const uint8_t* data, size_t size) {
         verif::cls(c.a_null && c.b_null ? "null:both" : (c.a_null || c.b_null) ? "null:one" : "null:none");
     if ((c.kind == K_MEMCMP_EQUAL || c.kind == K_C_MEMCMP) && c.n == 0) verif::cls("mem:length-0");
     if (c.kind == K_CHECK_COMPARE) verif::cls((std::string("compare:") + OPNAME[c.op] + (c.expect ? ":pass" : ":fail")).c_str());
-    if (c.kind == K_BITS_EQUAL || c.kind == K_C_BITS) verif::cls(sfmt("bits:%d-byte", TI[c.ta].bits / 8).c_str());
+    if (c.kind == K_BITS_EQUAL || c.kind == K_C_BITS) {
+        verif::cls(sfmt("bits:actual-%d-byte", TI[c.tb].bits / 8).c_str());
+        if (c.op) verif::cls(c.expect ? "bits:mask-above-actual-width:pass" : "bits:mask-above-actual-width:fail");
+        if (c.sub == 2) verif::cls("bits:explicit-byte-count");
+        if (c.ia || c.ib) verif::cls("bits:operand-types-differ");
+    }
+    if (c.c_trunc) verif::cls("c-interface:truth-value-lost-in-int-parameter");
+    if (c.wide_src) verif::cls("c-interface:operand-wider-or-other-than-parameter-type");
 
     const char* sig = nullptr; std::string msg;
     int rc = judge(c, &sig, &msg);
@@ -906,5 +1045,10 @@ extern "C" int verif_known_repro(const char* key) {
         return fr.failures == 0 ? 1 : 0;
     }
     if (k == KEY_RENDER) return run_child(repro_render) != 0 ? 1 : 0;
+    if (k == KEY_CBOOL) {     // CHECK_C(1L << 32): the condition is true, the int parameter receives 0
+        Case c; c.kind = K_CHECK_C; c.ta = T_LONG; c.va = P32;
+        verif::FixtureRun fr = verif::run_in_fixture(body, &c);
+        return fr.failures != 0 ? 1 : 0;
+    }
     return -1;
 }
